@@ -87,10 +87,10 @@ func checkC11(w *World, r *Report) {
 		if f == nil {
 			panic(undecided{"Compiler.checkFeatures"})
 		}
-		found, ok, why := everyIterationCalls(f, func(c ssa.CallInstruction) bool {
+		found, ok, why := everyIterationCallsDeep(f, func(c ssa.CallInstruction) bool {
 			sc := c.Common().StaticCallee()
 			return sc != nil && nm(sc) == "set" && sc.Signature.Recv() != nil && strings.Contains(sc.Signature.Recv().Type().String(), "featuresMap")
-		})
+		}, 0)
 		if !found {
 			panic(undecided{"checkFeatures: recording of the verdict"})
 		}
